@@ -31,6 +31,7 @@ from .. import core, wire
 from ..core import InfraError, shrink
 
 TOL = 1e-9
+NEAR = 1e-7  # relative to the scale of the centres: what counts as a near tie once float128 bins are involved
 _GEN = None
 
 
@@ -127,18 +128,36 @@ class Ref:
         self.max = None
         self.cap = cap
         self.tie = False
+        # a NEAR tie (float runs only): two candidate gaps, or a value and a centre, closer than NEAR of the scale of the
+        # centres.  After a dump() the implementation computes in numpy.float128 and this mirror in float64: as long as
+        # no decision was that close both make the same decisions and the bins agree up to rounding.
+        self.near = False
 
     def copy(self):
         r = Ref(self.cap)
         r.bins = list(self.bins)
-        r.min, r.max, r.tie = self.min, self.max, self.tie
+        r.min, r.max, r.tie, r.near = self.min, self.max, self.tie, self.near
         return r
+
+    def to_longdouble(self):
+        """What dump() does to the histogram it dumps (and so to every copy loaded from that dump): the centres become
+        numpy.float128.  Later merges of such a centre are then computed in extended precision here as in the code."""
+        import numpy
+
+        self.bins = [(numpy.longdouble(v), f) for v, f in self.bins]
 
     def update(self, v, c):
         b = self.bins
+        if not isinstance(v, (Fraction, float, int)):
+            v = float(v)  # update() inserts _caster(value): a float128 centre of another histogram arrives as its float64
         i = 0
         while i < len(b) and b[i][0] < v:
             i += 1
+        thr = None
+        if not isinstance(v, Fraction) and b:
+            thr = NEAR * max(abs(b[0][0]), abs(b[-1][0]), abs(v))
+            if (i < len(b) and 0 < b[i][0] - v <= thr) or (i > 0 and v - b[i - 1][0] <= thr):
+                self.near = True  # an exact hit (or the order) could depend on the precision of the centre
         if i < len(b) and b[i][0] == v:
             b[i] = (b[i][0], b[i][1] + c)
         else:
@@ -154,6 +173,8 @@ class Ref:
             k = gaps.index(m)
             if gaps.count(m) > 1:
                 self.tie = True
+            if thr is not None and sum(1 for g in gaps if g - m <= thr) > 1:
+                self.near = True
             (v1, f1), (v2, f2) = b[k], b[k + 1]
             c0 = (v1 * f1 + v2 * f2) / (f1 + f2)
             b[k : k + 2] = [(min(max(c0, v1), v2), f1 + f2)]  # kept within the pair (the identity in exact arithmetic)
@@ -389,6 +410,11 @@ def same_bins(mode, a, b, loose=False):
     return True
 
 
+def same_bins_abs(a, b, tol):
+    """Float bins equal in counts, centres within an absolute tolerance."""
+    return len(a) == len(b) and all(int(f1) == int(f2) and abs(float(v1) - float(v2)) <= tol for (v1, f1), (v2, f2) in zip(a, b))
+
+
 def same_val(mode, v1, v2, loose=False):
     if v1 is None or v2 is None:
         return v1 is None and v2 is None
@@ -538,6 +564,7 @@ def run_impl(case, keep=False):
                         ctx_hits.append("add:returned-a-new-object(left operand judged as a second histogram)")
                     rb = R[b]
                     R[a].tie = R[a].tie or rb.tie
+                    R[a].near = R[a].near or rb.near
                     for v, f in list(rb.bins):
                         R[a].update(v, f)
                     if k == "add":
@@ -574,6 +601,7 @@ def run_impl(case, keep=False):
                     loaded = [D.load(d["bins"], d["min"], d["max"]) for _ in targets]  # one dump, one or two loads
                     if mode == "f":
                         L[r].f128 = True
+                        R[r].to_longdouble()
                     if any(type(v).__name__ in ("longdouble", "float128") for v, _ in nat0[0]):
                         ctx_hits.append("dl:of-a-histogram-already-holding-float128-bins")
                         if any(float(v) != v for v, _ in nat0[0]):
@@ -648,9 +676,19 @@ def run_impl(case, keep=False):
                     ib = snap_impl(mode, H[touched])[0]
                     rb = snap_ref(mode, R[touched])[0]
                     if L[touched].f128:
-                        if not same_bins(mode, ib, rb, loose=True):
-                            out.f128_divergence = True
-                    elif not same_bins(mode, ib, rb):
+                        # after a dump() the implementation's bins are numpy.float128 and this mirror computes in float64:
+                        # the reference clause is judged up to rounding (1e-9 of the data's scale), unless some decision
+                        # of the history was a near tie (then a different merge is legitimate)
+                        agree = same_bins_abs(ib, rb, TOL * float(L[touched].scale))
+                        if R[touched].near:
+                            ctx_hits.append("reference:after-dump(float128) near tie in the history - not judged")
+                            if not agree:
+                                out.f128_divergence = True
+                        else:
+                            ctx_hits.append("reference:after-dump(float128) judged up to rounding")
+                    else:
+                        agree = same_bins(mode, ib, rb)
+                    if not agree and not (L[touched].f128 and R[touched].near):
                         ex = L[touched].excuse or (L[touched].loaded_with, int(H[touched]._bin_count))
                         d = {"impl": ib, "reference": rb, "loaded_with": ex[0], "limit": ex[1],
                              "noninserting_update_above_limit": L[touched].ref_excused}
@@ -772,6 +810,11 @@ def compare_with_model(ctx, case, out, mline_out):
         if op[0] == "snap":
             step, reg, isnap, rsnap, rtie, f128 = next(snaps)
             fb, fmin, fmax, rb, rmin, rmax, tie = dec_snap(mode, mo)
+            if f128:
+                # float mode after a dump(): the implementation's bins are numpy.float128 and so are the mirror's (it follows the
+                # conversion so that exact hits and merges are decided on the same numbers); neither is the float64 machine
+                ctx.hit("snap:after-dump(float128)")
+                continue
             # infrastructure: Lean reference vs. Python mirror (implementation not involved)
             if not (same_bins(mode, rb, rsnap[0]) and same_val(mode, rmin, rsnap[1]) and same_val(mode, rmax, rsnap[2]) and tie == rtie):
                 # The Lean reference is assembled from arithmetic regenerated from the source, the mirror is fixed text:
@@ -781,9 +824,6 @@ def compare_with_model(ctx, case, out, mline_out):
                     ctx.mirror_mismatch = "Lean reference and its Python mirror differ at step %d of %s: %s vs %s" % (
                         step, json.dumps(core._jsonable(case))[:300], repr((rb, rmin, rmax, tie))[:400], repr((rsnap, rtie))[:400])
                 ctx.hit("lean-reference != python-mirror")
-                continue
-            if f128:
-                ctx.hit("snap:after-dump(float128)")
                 continue
             if not (same_bins(mode, fb, isnap[0]) and same_val(mode, fmin, isnap[1]) and same_val(mode, fmax, isnap[2])):
                 return {"step": step, "impl": isnap, "model": [fb, fmin, fmax]}
@@ -1254,6 +1294,98 @@ def checkpoint_case(ctx, mode=None):
     return {"mode": mode, "prog": prog, "family": "checkpoint:" + style, "snap_every": 1 if len(prog) <= 30 else 5}
 
 
+def tiny_load_case(ctx, mode=None):
+    """Dump/load of a TINY histogram — one, two or three bins, so load() builds an empty / one-entry / two-entry cache of
+    adjacent differences (`diffs = []`, `min_diff = inf` for a single bin) — followed by a LONG history on the loaded
+    copy: filled to the loaded limit with distinct values (updates, small bulk loads or `+` of an independently built
+    histogram), then values inside the range (far from / next to a centre), exact hits and new extremes, each of which
+    must merge the closest adjacent pair; sometimes the original is fed the same values and the full copy is dumped and
+    loaded once more.  A cache that is empty-but-not-None is the state no freshly built histogram is ever in."""
+    rng = ctx.rng
+    mode = mode or ("q" if rng.random() < 0.6 else "f")
+    default = gen_const("distogram.default_bin_count", 50)
+    n0 = rng.choice([1, 1, 1, 2, 2, 3])
+    cap0 = rng.choice([default, rng.randint(max(2, n0), 64), rng.randint(max(2, n0), 64)])
+    total = default + rng.randint(2, 14)  # distinct values after the load: fills the loaded copy and goes on
+    span = rng.choice([4000, 20000, 10 ** 6])
+    pts = rng.sample(range(-span, span), n0 + total)
+    scale = 1 if mode == "q" else rng.choice([1.0, 0.5, 0.125, 3.0, 1e-3])
+    den = rng.choice([1, 1, 2, 7])
+
+    def val(x):
+        if mode == "q":
+            return x if den == 1 else [x, den]
+        return float(x) * scale
+
+    order = rng.random()
+    if order < 0.25:
+        # a monotone stream from the very first value on: after the load every value is an append (ascending) or an insert
+        # at position 0 (descending) — the loaded cache and its minimum are only ever touched by that one path
+        pts.sort(reverse=rng.random() < 0.4)
+    first, later = pts[:n0], pts[n0:]
+    if 0.25 <= order < 0.5:
+        later[: default - n0] = sorted(later[: default - n0], reverse=rng.random() < 0.5)  # the fill arrives in order
+    prog = [["new", 0, cap0]]
+    if rng.random() < 0.2:
+        # the tiny histogram comes from a bulk load (its bounds from the array, repeated values)
+        prog.append(["bulk", 0, [val(x) for x in first] + [val(rng.choice(first)) for _ in range(rng.randint(0, 3))], "f8"])
+    else:
+        for x in first:
+            prog.append(["upd", 0, val(x), gen_count(rng)])
+    prog.append(["dl", 0, 1])
+    both = cap0 >= 4 and rng.random() < 0.4  # the un-dumped original goes through the same history
+    how = rng.random()
+    fill, rest = later[: default - n0 - rng.choice([0, 0, 1])], None
+    rest = later[len(fill):]
+    nxt = 2
+    if how < 0.7:
+        for x in fill:
+            c = gen_count(rng) if rng.random() < 0.2 else 1
+            prog.append(["upd", 1, val(x), c])
+            if both:
+                prog.append(["upd", 0, val(x), c])
+    elif how < 0.85:
+        for i in range(0, len(fill), 9):
+            chunk = [val(x) for x in fill[i:i + 9]]
+            prog.append(["bulk", 1, chunk + [rng.choice(chunk)], "f8"])
+            if both:
+                prog.append(["bulk", 0, list(prog[-1][2]), "f8"])
+    else:
+        prog.append(["new", nxt, 64])
+        for x in fill:
+            prog.append(["upd", nxt, val(x), 1])
+        prog.append(["add", 1, nxt])
+        if both:
+            prog.append(["add", 0, nxt])
+        nxt += 1
+    lo, hi = min(pts), max(pts)
+    seen = list(first) + list(fill)
+    for x in rest:
+        r = rng.random()
+        if r < 0.6:
+            v = x  # somewhere inside the range, as far from a centre as it happens to be
+        elif r < 0.7:
+            v = rng.choice(seen)  # (probably) an exact hit
+        elif r < 0.8:
+            lo -= rng.randint(1, span // 10)
+            v = lo
+        elif r < 0.9:
+            hi += rng.randint(1, span // 10)
+            v = hi
+        else:
+            v = rng.choice(seen) + rng.choice([1, -1])  # right next to a centre: the legitimate in-place merge
+        seen.append(v)
+        c = gen_count(rng)
+        prog.append(["upd", 1, val(v), c])
+        if both:
+            prog.append(["upd", 0, val(v), c])
+    if rng.random() < 0.25:
+        prog.append(["dl", 1, nxt])
+        for _ in range(rng.randint(1, 4)):
+            prog.append(["upd", nxt, val(rng.randint(lo, hi)), 1])
+    return {"mode": mode, "prog": prog, "family": "tiny-load:%d-bin%s" % (n0, ":monotone" if order < 0.25 else ""), "snap_every": 7}
+
+
 def zero_extreme_case(ctx, mode=None):
     """`+` (and merge / bulk load / update) around an exact zero bound — the truthiness trap: one operand's true
     minimum (or maximum) is exactly 0 / -0.0 / a numpy zero, it is compressed so that zero is no longer a centre of its
@@ -1376,6 +1508,20 @@ BOUNDARY = [
     {"mode": "f", "family": "boundary", "prog": [["new", 0, 2], ["upd", 0, 9.999999999999982e-09, 1], ["bulk", 0, [9.99999999999998e-09], "f8"], ["dl", 0, 1],
                                                 ["upd", 0, 9.99999999999998e-09, 2], ["bulk", 0, [9.999999999999992e-09], "f8"]]},
     {"mode": "f", "family": "boundary", "prog": [["new", 0, 2], ["upd", 0, 9.999999999999997e-09, 1], ["upd", 0, 1e-08, 1], ["upd", 0, 9.999999999999999e-09, 999983]]},
+    # dump/load of a histogram with ONE bin (load() builds an empty cache, min_diff = inf), TWO and THREE bins, then a
+    # long history on the loaded copy and on the original: filled to the loaded limit, then values that must merge the
+    # closest adjacent pair (an empty-but-not-None cache that is never filled folds them into the nearest bin instead)
+] + [
+    {"mode": m, "family": "boundary", "prog": [["new", 0, 50]] + [["upd", 0, w((10, 19, 31)[j]), 3] for j in range(n0)] + [["dl", 0, 1]]
+     + [op for k in range(50 - n0) for op in (["upd", 1, w(100 * k + k * k), 1], ["upd", 0, w(100 * k + k * k), 1])]
+     + [op for v, c in ((2040, 1), (3333, 2), (4444, 1), (-7, 5), (1111, 1), (5, 1)) for op in (["upd", 1, w(v), c], ["upd", 0, w(v), c])]}
+    for n0 in (1, 2, 3) for m, w in (("q", int), ("f", float))
+] + [
+    # the same with a monotone stream: after the load every value is an append (ascending) / an insert at 0 (descending)
+    {"mode": m, "family": "boundary", "prog": [["new", 0, 50], ["upd", 0, w(0), 2], ["dl", 0, 1]]
+     + [["upd", 1, w(sg * (100 * k + k * k)), 1] for k in range(1, 56)] + [["upd", 1, w(sg * 777), 1], ["upd", 1, w(sg * 5000), 1]]}
+    for sg in (1, -1) for m, w in (("q", int), ("f", float))
+] + [
     # in-place shortcut next to bin 0 and next to the last bin
     {"mode": "q", "family": "boundary", "prog": [["new", 0, 3], ["upd", 0, 0, 1], ["upd", 0, 10, 1], ["upd", 0, 20, 1], ["upd", 0, 1, 1], ["upd", 0, 19, 1], ["upd", 0, 11, 1]]},
 ]
@@ -1436,7 +1582,7 @@ def run(ctx):
     while done < n_random and ctx.time_left() > ctx.scale(12, 170):
         cases = ([random_case(ctx) for _ in range(74)] + [dl_heavy_case(ctx) for _ in range(8)] + [zero_extreme_case(ctx) for _ in range(8)]
                  + [over_limit_load_case(ctx) for _ in range(4)] + [reuse_case(ctx) for _ in range(6)]
-                 + [checkpoint_case(ctx) for _ in range(8)])
+                 + [checkpoint_case(ctx) for _ in range(8)] + [tiny_load_case(ctx) for _ in range(5)])
         evaluate(ctx, cases)
         done += len(cases)
         if ctx.violations:
@@ -1463,8 +1609,8 @@ def intensify(ctx):
     while ctx.time_left() > max(5, t_end - 50) and n < 3000 and not ctx.violations:
         evaluate(ctx, [random_case(ctx) for _ in range(74)] + [dl_heavy_case(ctx) for _ in range(10)] + [zero_extreme_case(ctx) for _ in range(10)]
                  + [over_limit_load_case(ctx) for _ in range(6)] + [reuse_case(ctx) for _ in range(6)]
-                 + [checkpoint_case(ctx) for _ in range(8)])
-        n += 114
+                 + [checkpoint_case(ctx) for _ in range(8)] + [tiny_load_case(ctx) for _ in range(6)])
+        n += 120
 
 
 def replay(ctx, case):
